@@ -1,6 +1,7 @@
 package props
 
 import (
+	"fmt"
 	"testing"
 
 	"pgregory.net/rapid"
@@ -60,6 +61,26 @@ func c09Gen(t *rapid.T) c04Case {
 		c.Events = append(c.Events, ev)
 	}
 	n := 0
+	if len(c.Layout.Bounds) > 0 && rapid.IntRange(0, 2).Draw(t, "mergeheld") == 0 {
+		// a merge whose two parents are both being re-established when it happens: requests warm the cache
+		// for both, then meet the closing regions while hbase:meta is silent
+		j := rapid.IntRange(0, len(c.Layout.Bounds)-1).Draw(t, "mhregion")
+		at := rapid.SampledFrom([]int{16, 20, 48}).Draw(t, "mhat")
+		c.Events = append(c.Events, c04Event{AtMS: at, Kind: "mergeheld", Region: j, Server: rapid.IntRange(0, 3).Draw(t, "mhserver"),
+			DownMS: rapid.SampledFrom([]int{1, 10, 40}).Draw(t, "mhhold")})
+		keyA := evid.B{}
+		if j > 0 {
+			keyA = c.Layout.Bounds[j-1]
+		}
+		keyB := c.Layout.Bounds[j]
+		for _, k := range []evid.B{keyA, keyB} {
+			for _, when := range []int{0, at + 1, at + 1 + rapid.IntRange(0, 2).Draw(t, "mhlate")} {
+				n++
+				op := opSpec{Kind: rapid.SampledFrom([]string{"get", "put"}).Draw(t, "mhkind"), Key: k, Marker: fmt.Sprintf("mk%d", n)}
+				c.Reqs = append(c.Reqs, c04Req{AtMS: when, Op: &op})
+			}
+		}
+	}
 	callers := rapid.IntRange(2, 32).Draw(t, "callers")
 	per := rapid.IntRange(1, 4).Draw(t, "per")
 	kinds := []string{"get", "get", "put", "inc"}
@@ -93,7 +114,8 @@ func TestC09_ConcurrentFailures(t *testing.T) {
 			"1..4 requests each (single and batched) on hot keys of 1..12 regions on 2..4 simulated servers, all at a "+
 			"handful of virtual instants, while 2..8 faults strike at the same instants: connection resets shared by many "+
 			"regions, bursts of NotServing / retryable answers, splits and merges while requests wait, dial refusals, "+
-			"server aborts with reassignment, region moves, hbase:meta relocation. Oracle: the process neither panics "+
+			"server aborts with reassignment, region moves, hbase:meta relocation, and (1 in 3) a merge of two neighbours that are "+
+			"both being re-established, their lookups parked at a silent hbase:meta and answered at the same instant. Oracle: the process neither panics "+
 			"nor deadlocks (and the race detector stays silent), every request completes correctly within 10 virtual "+
 			"minutes after the last fault, and 3 virtual minutes later no cached region (or hbase:meta) is still marked "+
 			"unavailable. Non-trivial = >= 1 request met a fault; distinct by case hash. Interleavings inside the client "+
